@@ -1,25 +1,27 @@
 // Native replay of the SQL clause builders of query.rs (private fns) — cfg(discret_verif) only.
 use super::*;
 use crate::database::query_language::data_model_parser::Field;
-use crate::database::query_language::query_parser::{EntityParams, FilterParam};
+use crate::database::query_language::query_parser::{Direction, EntityParams, FilterParam, JsonFilter, OrderBy};
 use crate::database::query_language::{FieldType, ParamValue};
 use serde_json::{json, Value};
 
-fn where_sql(value_kind: &str, field_kind: &str, selected: bool, values: &Vec<String>) -> (String, Vec<String>) {
-    let mut vals = values.iter();
-    let value = match value_kind {
-        "variable" => FieldValue::Variable("var_a".to_string()),
+fn fvalue(kind: &str, vals: &mut std::slice::Iter<String>, name: &str) -> FieldValue {
+    match kind {
+        "variable" => FieldValue::Variable(format!("var_{}", name)),
         "String" => FieldValue::Value(ParamValue::String(vals.next().cloned().unwrap_or_default())),
         "Binary" => FieldValue::Value(ParamValue::Binary(vals.next().cloned().unwrap_or_default())),
         "Integer" => FieldValue::Value(ParamValue::Integer(42)),
         "Boolean" => FieldValue::Value(ParamValue::Boolean(true)),
         _ => FieldValue::Value(ParamValue::Null),
-    };
+    }
+}
+
+fn field(kind: &str, vals: &mut std::slice::Iter<String>) -> Field {
     let mut field = Field::new();
     field.name = "name".to_string();
     field.short_name = "32".to_string();
     field.field_type = FieldType::String;
-    match field_kind {
+    match kind {
         "system" => field.is_system = true,
         "scalar-default-int" => { field.field_type = FieldType::Integer; field.default_value = Some(ParamValue::Integer(7)); }
         "scalar-default-string" => field.default_value = Some(ParamValue::String(vals.next().cloned().unwrap_or_default())),
@@ -27,24 +29,60 @@ fn where_sql(value_kind: &str, field_kind: &str, selected: bool, values: &Vec<St
         "entity" => field.field_type = FieldType::Entity("ns.Other".to_string()),
         _ => {}
     }
+    field
+}
+
+/// builds the same structures as the symbolic driver (same order of value consumption) and runs the real clause builder
+fn clause_sql(sh: &Value, values: &Vec<String>) -> (String, Vec<String>) {
+    let mut vals = values.iter();
     let mut params = EntityParams::new();
-    params.filters.push(FilterParam { name: "name".to_string(), operation: "=".to_string(), value, is_aggregate: false, is_selected: selected, field });
     let mut sq = SingleQuery::default();
-    let sql = get_where_filters(&params, &mut sq, 1);
+    let vk = sh["value"].as_str().unwrap_or("variable");
+    let sql = match sh["part"].as_str().unwrap() {
+        "where" => {
+            let value = fvalue(vk, &mut vals, "a");
+            let f = field(sh["field"].as_str().unwrap(), &mut vals);
+            params.filters.push(FilterParam { name: "name".to_string(), operation: "=".to_string(), value, is_aggregate: false,
+                                              is_selected: sh["selected"].as_i64().unwrap_or(0) != 0, field: f });
+            get_where_filters(&params, &mut sq, 1)
+        }
+        "json_filter" => {
+            let value = fvalue(vk, &mut vals, "a");
+            params.json_filters.push(JsonFilter { selector: "'$.a.b'".to_string(), operation: "=".to_string(), value, field: field("scalar", &mut vals) });
+            get_where_filters(&params, &mut sq, 1)
+        }
+        "having" => {
+            let value = fvalue(vk, &mut vals, "a");
+            params.aggregate_filters.push(FilterParam { name: "total".to_string(), operation: ">".to_string(), value, is_aggregate: true, is_selected: true,
+                                                        field: field("scalar", &mut vals) });
+            get_having_filters(&params, &mut sq, 1)
+        }
+        "search" => {
+            params.fulltext_search = Some(fvalue(vk, &mut vals, "a"));
+            get_search_filter(&params, &mut sq, 1)
+        }
+        "paging" => {
+            let mut keys = vec![fvalue(vk, &mut vals, "a")];
+            params.order_by.push(OrderBy { name: "name".to_string(), direction: Direction::Asc, is_selected: true, field: field("scalar", &mut vals) });
+            if let Some(v2) = sh.get("value2").and_then(|x| x.as_str()) {
+                keys.push(fvalue(v2, &mut vals, "a2"));
+                params.order_by.push(OrderBy { name: "age".to_string(), direction: Direction::Desc, is_selected: false, field: field("scalar", &mut vals) });
+            }
+            if sh.get("before").is_some() { params.before = keys; } else { params.after = keys; }
+            get_paging(&params, &mut sq)
+        }
+        _ => {
+            params.first = fvalue(vk, &mut vals, "a");
+            get_limit(&params, &mut sq)
+        }
+    };
     (sql, sq.var_order.iter().map(|p| p.value.clone()).collect())
 }
 
 pub fn replay_sql_clause(sc: &Value) -> Value {
     let sh = &sc["shape"];
-    if sh["part"].as_str().unwrap() != "where" {
-        return json!({"status": "skipped"});
-    }
     let get = |k: &str| -> Vec<String> { sc[k].as_array().map(|a| a.iter().map(|x| x.as_str().unwrap_or("").to_string()).collect()).unwrap_or_default() };
-    let (a, pa) = where_sql(sh["value"].as_str().unwrap(), sh["field"].as_str().unwrap(), sh["selected"].as_i64().unwrap_or(0) != 0, &get("values_a"));
-    let (b, _pb) = where_sql(sh["value"].as_str().unwrap(), sh["field"].as_str().unwrap(), sh["selected"].as_i64().unwrap_or(0) != 0, &get("values_b"));
-    // does SQLite still accept the statement built around the clause?
-    let conn = rusqlite::Connection::open_in_memory().unwrap();
-    conn.execute("CREATE TABLE t (value TEXT, _json TEXT, name TEXT)", []).unwrap();
-    let prepares = |clause: &str| conn.prepare(&format!("SELECT 1 FROM t WHERE 1=1 {}", clause)).is_ok();
-    json!({"status": "done", "sql_differs": a != b, "sql_a": a, "sql_b": b, "bound_a": pa, "a_prepares": prepares(&a), "b_prepares": prepares(&b)})
+    let (a, pa) = clause_sql(sh, &get("values_a"));
+    let (b, _pb) = clause_sql(sh, &get("values_b"));
+    json!({"status": "done", "sql_differs": a != b, "sql_a": a, "sql_b": b, "bound_a": pa})
 }
